@@ -179,8 +179,13 @@ def op_supported(op):
     return op in SUPPORTED_OPS or op.startswith("zeroExt_") or op.startswith("signExt_")
 
 
+_HOOKS = {"loc": None, "call": False}
+
+
 def to_src(e, idx, big_endian=False):
-    """Return python source computing e; identifiers are v[i], memory is mem(ptr_size, addr)."""
+    """Return python source computing e; identifiers are v[i], memory is mem(ptr_size, addr).
+    _HOOKS["loc"]: optional callable ExprLoc -> int; _HOOKS["call"]: when true, `call_*` operators are
+    emitted as xcall(name, args, width) (uninterpreted events supplied by the caller's namespace)."""
     if e.is_int():
         return "%d" % int(e)
     if e.is_id():
@@ -188,7 +193,9 @@ def to_src(e, idx, big_endian=False):
             raise Unsupported("free identifier %r not in valuation" % e)
         return "v[%d]" % idx[e]
     if e.is_loc():
-        raise Unsupported("ExprLoc")
+        if _HOOKS["loc"] is None:
+            raise Unsupported("ExprLoc")
+        return "%d" % _HOOKS["loc"](e)
     if e.is_mem():
         if e.size % 8:
             raise Unsupported("memory access of %d bits" % e.size)
@@ -211,6 +218,8 @@ def to_src(e, idx, big_endian=False):
     args = e.args
     w = e.size
     a = [to_src(x, idx, big_endian) for x in args]
+    if _HOOKS["call"] and op.startswith("call_"):
+        return "xcall(%r,(%s,),%d)" % (op, ",".join(a), w)
     aw = args[0].size
     m = mask(w)
     if op in NARY:
@@ -343,10 +352,18 @@ def has_mem(e):
     return bool(found)
 
 
-def compile_expr(e, ids, big_endian=False):
+def compile_expr(e, ids, big_endian=False, loc=None, xcall=None):
     idx = {x: i for i, x in enumerate(ids)}
-    src = to_src(e, idx, big_endian)
-    return eval("lambda v, mem: " + src, dict(HELPERS))
+    old = dict(_HOOKS)
+    _HOOKS["loc"], _HOOKS["call"] = loc, xcall is not None
+    try:
+        src = to_src(e, idx, big_endian)
+    finally:
+        _HOOKS.update(old)
+    ns = dict(HELPERS)
+    if xcall is not None:
+        ns["xcall"] = xcall
+    return eval("lambda v, mem: " + src, ns)
 
 
 def ev(e, env=None, mem=None, big_endian=False):
